@@ -1783,8 +1783,9 @@ def q05r(ctx, n=4, clause='notation', letters=False, tokens=False):
     bads = []
     # a feasible failing edge of a checked-arithmetic assert = a panic in a debug build and silent wrap-around in a release build
     for pc, where, msg in ex.cut_panics:
-        bads.append(z3.And(*pc))
         ob.classes_seen['arithmetic-panic-edge'] = ob.classes_seen.get('arithmetic-panic-edge', 0) + 1
+        if clause == 'thresholds':      # wrap-around of threshold arithmetic is a threshold matter (C13), not a notation one
+            bads.append(z3.And(*pc))
     for o in outs:
         if o.panic:
             bads.append(z3.And(*o.st.pc))
@@ -2925,4 +2926,185 @@ def q15t(ctx, lens=(2, 1), settings=None):
     ob.verdict = decide(ob.qid, assume + ob.defs, z3.Or(*bads) if bads else z3.BoolVal(False), allv, all_sat=True,
                         max_models=ctx.cap('Q15t'), second=ctx.second, workdir=ctx.workdir,
                         second_timeout_s=getattr(ctx, 'second_timeout', 60), blocker=blocker)
+    return ob
+
+
+# =========================================================================== Q12i  CLI input acquisition (obtain_input, bin crate)
+def make_io_models(env_):
+    """the process environment as nondeterministic stubs constrained only by their documented contracts:
+    stdin().is_terminal() -> a symbolic Boolean; stdin().lock().lines() -> the lines the environment delivers (Ok values,
+    no line break inside); stdin().read_to_string -> appends the delivered text; std::fs::read_to_string(path) -> Ok(content)
+    or Err(kind) as the environment decides; paths are strings"""
+    def m_stdin(ex, st, fr, callee, a, depth):
+        return Opaque('stdin')
+
+    def m_is_terminal(ex, st, fr, callee, a, depth):
+        return env_['is_terminal']
+
+    def m_lock(ex, st, fr, callee, a, depth):
+        return Opaque('stdinlock')
+
+    def m_buf_lines(ex, st, fr, callee, a, depth):
+        env_['used'].add('stdin_lines')
+        return IterV('list', items=tuple(EnumV('Result', 'Ok', 0, (SymStr(l),)) for l in env_['stdin_lines']))
+
+    def m_read_to_string(ex, st, fr, callee, a, depth):
+        env_['used'].add('stdin_text')
+        r = a[1]
+        while isinstance(st.load(r), RefV):
+            r = st.load(r)
+        st.store(r, SymStr(st.load(r).items + tuple(env_['stdin_text'])))
+        return EnumV('Result', 'Ok', 0, (BV(len(env_['stdin_text']), 64),))
+
+    def m_fs_read(ex, st, fr, callee, a, depth):
+        env_['used'].add('file')
+        env_['opened'].append(a[0])
+        if env_['file'] is None:
+            return EnumV('Result', 'Err', 1, (Opaque('ioerror', 'NotFound'),))
+        return EnumV('Result', 'Ok', 0, (SymStr(env_['file']),))
+
+    def m_path_ident(ex, st, fr, callee, a, depth):
+        return a[0]
+
+    def m_pathbuf_from(ex, st, fr, callee, a, depth):
+        return as_str(st, a[0])
+
+    def m_str_trim(ex, st, fr, callee, a, depth):
+        s_ = list(as_str(st, a[0]).items)
+        ws = lambda x: z3.Or(*[x == BV(c, 32) for c in (9, 10, 11, 12, 13, 32, 0x85, 0xA0)])
+        outs = []
+        work = [(st, 0, len(s_))]
+        while work:
+            s1, lo, hi = work.pop()
+            if lo < hi:
+                done = True
+                for s2, t in ex.branch(s1, ws(s_[lo])):
+                    if t:
+                        work.append((s2, lo + 1, hi))
+                    else:
+                        for s3, t2 in ex.branch(s2, ws(s_[hi - 1])):
+                            if t2:
+                                work.append((s3, lo, hi - 1))
+                            else:
+                                outs.append((s3, s3.ref(SymStr(s_[lo:hi]))))
+                continue
+            outs.append((s1, s1.ref(SymStr(()))))
+        return outs
+
+    def m_io_error_new(ex, st, fr, callee, a, depth):
+        return Opaque('ioerror', 'custom')
+    return [(P(r'^stdin$|^std::io::stdin$'), m_stdin), (P(r'^<Stdin as IsTerminal>::is_terminal$'), m_is_terminal),
+            (P(r'^Stdin::lock$'), m_lock), (P(r"^<StdinLock<'_> as BufRead>::lines$"), m_buf_lines),
+            (P(r'^<Stdin as std::io::Read>::read_to_string$'), m_read_to_string), (P(r'^std::fs::read_to_string::<'), m_fs_read),
+            (P(r'^<PathBuf as Deref>::deref$|^Path::as_os_str$|^Path::to_path_buf$'), m_path_ident),
+            (P(r'^<PathBuf as From<&str>>::from$'), m_pathbuf_from), (P(r'^core::str::<impl str>::trim$'), m_str_trim),
+            (P(r'^<&std::ffi::OsStr as PartialEq<&str>>::eq$'), M.m_str_eq), (P(r'^std::io::Error::new::<'), m_io_error_new)]
+
+
+@guarded
+def q12i(ctx, channel, k=2, m=2):
+    """Q12i: obtain_input returns exactly the test cases the user supplied, on every input channel"""
+    ob = Obligation('Q12i[%s]' % channel, q12i.__doc__)
+    fields = ctx.bin_mir.structs.get('Cli')
+    if not fields or fields[:2] != ['input', 'file_path']:
+        raise Inconclusive('Cli layout changed: %s' % (fields,))
+    dash = [BV(ord('-'), 32)]
+
+    def sym_lines(tag, n, length, allow_cr_end):
+        ls, asm = [], []
+        for i in range(n):
+            l = [z3.BitVec('%s%d_%d' % (tag, i, j), 32) for j in range(length)]
+            asm += [z3.And(valid_char(x), x != BV(10, 32)) for x in l]
+            if not allow_cr_end and l:
+                asm.append(l[-1] != BV(13, 32))
+            ls.append(l)
+        return ls, asm
+    env_ = {'is_terminal': z3.Bool('stdin_is_terminal'), 'stdin_lines': [], 'stdin_text': [], 'file': None, 'used': set(), 'opened': []}
+    assume, vars_ = [], []
+    spec = None
+    if channel == 'args':
+        args, asm = sym_lines('a', k, m, True)
+        assume += asm
+        # any argument list except the single "-" with standard input available
+        assume.append(z3.Or(env_['is_terminal'], z3.BoolVal(k != 1) if k != 1 else z3.Not(z3.And(*[x == y for x, y in zip(args[0], dash)])) if m == 1 else z3.BoolVal(True)))
+        cli_input, file_path = args, EnumV('Option', 'None', 0, ())
+        expected = ('ok', args)
+        ob.domain = '%d command-line arguments of %d arbitrary code points; stdin terminal or not; not the lone "-" with piped stdin' % (k, m)
+    elif channel == 'stdin':
+        lines, asm = sym_lines('l', k, m, True)
+        assume += asm + [z3.Not(env_['is_terminal'])]
+        env_['stdin_lines'] = lines
+        cli_input, file_path = [dash], EnumV('Option', 'None', 0, ())
+        expected = ('ok', lines)
+        ob.domain = 'grex - with piped stdin: BufRead::lines delivers %d lines of %d arbitrary code points (no line feed inside; a line may end in a carriage return)' % (k, m)
+    elif channel in ('file-lf', 'file-crlf', 'file-lf-final', 'file-crlf-final'):
+        lines, asm = sym_lines('t', k, m, False)
+        assume += asm
+        sep = [BV(13, 32), BV(10, 32)] if 'crlf' in channel else [BV(10, 32)]
+        content = []
+        for i, l in enumerate(lines):
+            if i:
+                content += sep
+            content += l
+        if channel.endswith('final'):
+            content += sep
+        env_['file'] = content
+        path = [z3.BitVec('p%d' % i, 32) for i in range(2)]
+        assume += [valid_char(x) for x in path] + [z3.Not(z3.And(path[0] == dash[0], z3.BoolVal(len(path) == 1)))]
+        cli_input, file_path = [], EnumV('Option', 'Some', 1, (SymStr(path),))
+        expected = ('ok', lines)
+        vars_ += path
+        ob.domain = ('grex -f FILE: the file holds %d test cases of %d arbitrary code points (no line feed inside, not ending in a carriage return) joined by %s, %s final line ending' % (
+            k, m, 'CR LF' if 'crlf' in channel else 'LF', 'with a' if channel.endswith('final') else 'without'))
+    elif channel == 'file-missing':
+        path = [z3.BitVec('p%d' % i, 32) for i in range(2)]
+        assume += [valid_char(x) for x in path]
+        cli_input, file_path = [], EnumV('Option', 'Some', 1, (SymStr(path),))
+        expected = ('err', None)
+        vars_ += path
+        ob.domain = 'grex -f FILE where reading the file fails'
+    else:
+        raise Inconclusive('channel ' + channel)
+    ob.bound = '%d lines / arguments of %d code points' % (k, m)
+    ex = Exec(ctx.bin_mir, make_io_models(env_) + MODELS2 + BASE_MODELS)
+    st = State(pc=list(assume))
+    vals = []
+    for f in fields:
+        if f == 'input':
+            vals.append(ListV([SymStr(x) for x in cli_input]))
+        elif f == 'file_path':
+            vals.append(file_path)
+        elif f.startswith('minimum_'):
+            vals.append(z3.BitVec('cli_' + f, 32))
+        elif f in ('help', 'version'):
+            vals.append(EnumV('Option', 'None', 0, ()))
+        else:
+            vals.append(z3.Bool('cli_' + f))
+    cli = st.ref(TupV(vals, fields, 'Cli'))
+    t0 = time.time()
+    outs = ex.run_fn(st, ctx.bin_mir.one_fn(r'^obtain_input$'), [cli])
+    ctx.finish(ob, ex, t0)
+    ob.paths = len(outs)
+    bads = []
+    for o in outs:
+        if o.panic:
+            bads.append(z3.And(*o.st.pc))
+            ob.classes_seen['panic'] = ob.classes_seen.get('panic', 0) + 1
+            continue
+        r = o.val
+        cls = r.variant
+        ob.classes_seen[cls] = ob.classes_seen.get(cls, 0) + 1
+        if expected[0] == 'err':
+            bads.append(z3.And(*o.st.pc, z3.BoolVal(r.variant != 'Err')))
+            continue
+        if r.variant != 'Ok':
+            bads.append(z3.And(*o.st.pc))
+            continue
+        got = [list(as_str(o.st, x).items) for x in deref(o.st, r.fields[0]).items]
+        bads.append(z3.And(*o.st.pc, z3.Not(same_lists(got, expected[1]))))
+    allv = [v for l in (cli_input if channel == 'args' else (env_['stdin_lines'] if channel == 'stdin' else (lines if channel.startswith('file-') and channel != 'file-missing' else []))) for v in l]
+    ob.verdict = decide(ob.qid, assume + ob.defs, z3.Or(*bads) if bads else z3.BoolVal(False), allv + vars_ + [env_['is_terminal']], all_sat=True,
+                        max_models=ctx.cap('Q12i'), second=ctx.second, workdir=ctx.workdir, second_timeout_s=getattr(ctx, 'second_timeout', 60),
+                        block_vars=allv or None)
+    ob.extra['environment_stubs_used'] = sorted(env_['used'])
     return ob
